@@ -74,6 +74,11 @@ def build(AN, case, freqs, with_noise):
                         'npints': [np.int64(x) for x in d], 'uint8': np.array(d, dtype=np.uint8),
                         'uint16': np.array(d, dtype=np.uint16), 'int32': np.array(d, dtype=np.int32)}[case['delay_form']]
     arr = AN.MultiAntennaArray(**kw)
+    dc = kw.get('delays')
+    if isinstance(dc, np.ndarray):
+        dc[...] = (dc + 5)[::-1]        # the caller re-uses its buffer (e.g. to configure the next array): configured delays stay
+    elif isinstance(dc, list):
+        dc[:] = [int(x) + 5 for x in dc][::-1]
     silent = set(case.get('silent', []))
     idx = 0
     for p, s in enumerate(arr.bg_streams):
